@@ -94,39 +94,104 @@ def check_constants_compiled(t, gt, d, bad):
                 bad(gt, t, "constant-signedness", c.name, "signed" if exp[2] else "unsigned", got)
 
 
-def run(ctx):
-    drv, sess, tally = E.common_setup(ctx, "C05")
-    ctx.rule = ("per type: every exported constant of every target vs the PyDSDL model and the Lean `bounds`; serbuf of the zero value, a "
-                "maximal-length value and random values into buffers of every size 0..max+1 (sampled sizes when max > 48 bytes); non-trivial = "
-                "type has at least one field; distinct by (type, target, item) / (type, value, capacity)")
-    ns = sess.ns
-
+def make_bad(tally, ns, prefix="", extra=None):
     def bad(gt, t, kind, item, want, got):
-        tally.fail({"kind": kind, "lang": t.lang, "sig": "-"},
-                   f"{t.name}: exported {item} of {gt.full_name} is {got}, the DSDL definition says {want}",
-                   lambda: {"type": f"{gt.full_name}.{gt.version[0]}.{gt.version[1]}", "item": item, "target": t.name, "options": t.options,
-                            "expected": want, "got": got, "files": E.deps_texts(ns, gt)})
+        rp = {"type": f"{gt.full_name}.{gt.version[0]}.{gt.version[1]}", "item": item, "target": t.name, "options": t.options,
+              "expected": want, "got": got}
+        rp.update(extra or {})
+        tally.fail({"kind": prefix + kind, "lang": t.lang, "sig": "-"},
+                   f"{t.name}: exported {item} of {gt.full_name} is {got}, the DSDL definition says {want}" + (" (" + prefix.strip(":") + ")" if prefix else ""),
+                   lambda: dict(rp, files=E.deps_texts(ns, gt)))
+    return bad
 
-    # ---- bounds: PyDSDL model vs Lean driver vs reference --------------------------------------------------------
-    model_bounds = {}
-    for gt in ns.types:
-        bls = gt.inner.bit_length_set
-        model_bounds[gt.index] = (bls.min, bls.max, gt.model.extent)
-    if drv is not None:
-        ans = drv.ask([f"bounds {gt.tstr}" for gt in ns.types])
-        for gt, a in zip(ns.types, ans):
-            ctx.traces += 1
-            got = E.parse_answer("bounds", gt.expr, a)
-            if got != ("bounds",) + model_bounds[gt.index]:
-                ctx.disagree("bounds", gt.tstr, a, "pydsdl: %d %d %d" % model_bounds[gt.index])
-    for gt in ns.types:
-        if R.bounds(gt.expr) != model_bounds[gt.index]:
-            ctx.disagree("reference-bounds", gt.tstr, str(R.bounds(gt.expr)), "pydsdl: %d %d %d" % model_bounds[gt.index])
 
-    # ---- exported constants ---------------------------------------------------------------------------------------
-    for t in sess.targets + sess.compile_only:
-        if t in sess.compile_only:
-            continue
+def pydsdl_bounds(ns):
+    return {gt.index: (gt.inner.bit_length_set.min, gt.inner.bit_length_set.max, gt.model.extent) for gt in ns.types}
+
+
+REGEN_V1 = {
+    "vns/regen/Inner.1.0.dsdl": "uint8 a\n@sealed\n",
+    "vns/regen/InnerD.1.0.dsdl": "uint8 a\n@extent 64\n",
+    "vns/regen/Outer.1.0.dsdl": "vns.regen.Inner.1.0 i\nuint8[<=2] x\nvns.regen.Inner.1.0[<=3] arr\n@sealed\n",
+    "vns/regen/OuterD.1.0.dsdl": "uint8 K = 7\nvns.regen.Outer.1.0 o\nvns.regen.InnerD.1.0 d\nvns.regen.Inner.1.0[2] two\n@extent 2048\n",
+    "vns/regen/OuterU.1.0.dsdl": "@union\nuint8 x\nvns.regen.Inner.1.0 i\nvns.regen.Outer.1.0 o\n@sealed\n",
+    "vns/regen/77.Svc.1.0.dsdl": "vns.regen.Inner.1.0 q\n@sealed\n---\nvns.regen.Outer.1.0[<=2] r\n@sealed\n",
+    "vns/regen/Unrelated.1.0.dsdl": "uint16 v\n@sealed\n",
+}
+REGEN_EDIT = {"vns/regen/Inner.1.0.dsdl": "uint8 a\nuint32 b\nuint16 K = 513\n@sealed\n"}     # only the NESTED sealed type changes size
+
+
+def regeneration_stream(ctx, tally, drv):
+    """
+    Generate a namespace, edit only a nested type (its size changes), regenerate into the SAME output directory and
+    compare with a generation into a fresh directory: every generated file, every exported constant and the
+    serialization of maximum-length values (the sizes of all types that nest the edited one must follow).
+    """
+    import shutil
+    import types as _types
+    from . import codec_targets as T
+    base = ctx.scratch / "regen"
+    shutil.rmtree(base, ignore_errors=True)
+    src = base / "dsdl"
+    G.write_texts(src, REGEN_V1)
+    ns1 = G.load(src / "vns")
+    numpy_dir = T.ensure_numpy()
+
+    def plan(ns, where):
+        return [T.CTarget(ns, base / where / "c", "any", False), T.CppTarget(ns, base / where / "cpp17", "c++17", parts=1),
+                T.PyTarget(ns, base / where / "py", numpy_dir)]
+    old = plan(ns1, "same")
+    for t in old:
+        if not (t.build() if isinstance(t, T.PyTarget) else t.generate()):
+            raise RuntimeError(f"regeneration stream: first generation failed for {t.name}: {t.build_log[-500:]}")
+    for rel, text in REGEN_EDIT.items():
+        (src / rel).write_text(text)
+    ns2 = G.load(src / "vns")
+    fresh = plan(ns2, "fresh")
+    extra = {"regeneration": {"first": REGEN_V1, "edit": REGEN_EDIT}}
+    for t in old:
+        t.ns = ns2
+    ok_old = [t.build() for t in old]
+    ok_new = [t.build() for t in fresh]
+    for t, a, b in zip(old, ok_old, ok_new):
+        ctx.case(("regen", t.name), True)
+        if not b:
+            raise RuntimeError(f"regeneration stream: fresh generation failed for {t.name}: {fresh[old.index(t)].build_log[-800:]}")
+        if not a:
+            tally.fail({"kind": "regen:build", "lang": t.lang, "sig": "-"},
+                       f"{t.name}: the tree regenerated over an existing output no longer builds (a fresh generation does)",
+                       lambda t=t: dict(extra, target=t.name, log=t.build_log[-1500:]))
+    # (1) file trees
+    for t, f in zip(old, fresh):
+        ga, gb = t.outdir / "gen", f.outdir / "gen"
+        for p in sorted(gb.rglob("*")):
+            if not p.is_file():
+                continue
+            q = ga / p.relative_to(gb)
+            ctx.count("regen:files-compared")
+            if not q.exists() or q.read_bytes() != p.read_bytes():
+                tally.fail({"kind": "regen:stale-file", "lang": t.lang, "sig": "-"},
+                           f"{t.name}: {p.relative_to(gb)} regenerated over an existing output differs from a fresh generation "
+                           "after editing only a nested type",
+                           lambda t=t, p=p, gb=gb: dict(extra, target=t.name, file=str(p.relative_to(gb))))
+    # (2) exported constants and (3) maximum-length serialization of the regenerated tree against the edited definitions
+    live = [t for t, a in zip(old, ok_old) if a]
+    check_exports(ctx, ns2, live, pydsdl_bounds(ns2), make_bad(tally, ns2, "regen:", extra))
+    reqs = []
+    for gt in ns2.types:
+        mx = (gt.inner.bit_length_set.max + 7) // 8
+        for v in [G.zero_value(gt.expr), E.maximal_value(ctx.rng, gt.expr), E.maximal_value(ctx.rng, gt.expr)]:
+            reqs.append(E.Req(gt, "ser", v, origin="regeneration"))
+            reqs.append(E.Req(gt, "serbuf", (v, mx), origin="regeneration"))
+            reqs.append(E.Req(gt, "rt", v, origin="regeneration"))
+    E.run_requests(ctx, _types.SimpleNamespace(ns=ns2, targets=live), drv, "regeneration", reqs, tally, targets=live)
+    for t in old + fresh:
+        t.close()
+
+
+def check_exports(ctx, ns, targets, model_bounds, bad):
+    """Every constant the generated code of `targets` exports, against the PyDSDL model of `ns`."""
+    for t in targets:
         if t.lang == "py":
             probes = t.probe()
             for gt, d in zip(ns.types, probes):
@@ -181,6 +246,39 @@ def run(ctx):
             ctx.count("constants-compared", len(gt.inner.constants))
             check_constants_compiled(t, gt, d, bad)
 
+
+
+def run(ctx):
+    drv, sess, tally = E.common_setup(ctx, "C05")
+    ctx.rule = ("per type: every exported constant of every target vs the PyDSDL model and the Lean `bounds`; serbuf of the zero value, a "
+                "maximal-length value and random values into buffers of every size 0..max+1 (sampled sizes when max > 48 bytes); non-trivial = "
+                "type has at least one field; distinct by (type, target, item) / (type, value, capacity)")
+    ns = sess.ns
+
+    bad = make_bad(tally, ns)
+
+    # ---- bounds: PyDSDL model vs Lean driver vs reference --------------------------------------------------------
+    model_bounds = {}
+    for gt in ns.types:
+        bls = gt.inner.bit_length_set
+        model_bounds[gt.index] = (bls.min, bls.max, gt.model.extent)
+    if drv is not None:
+        ans = drv.ask([f"bounds {gt.tstr}" for gt in ns.types])
+        for gt, a in zip(ns.types, ans):
+            ctx.traces += 1
+            got = E.parse_answer("bounds", gt.expr, a)
+            if got != ("bounds",) + model_bounds[gt.index]:
+                ctx.disagree("bounds", gt.tstr, a, "pydsdl: %d %d %d" % model_bounds[gt.index])
+    for gt in ns.types:
+        if R.bounds(gt.expr) != model_bounds[gt.index]:
+            ctx.disagree("reference-bounds", gt.tstr, str(R.bounds(gt.expr)), "pydsdl: %d %d %d" % model_bounds[gt.index])
+
+    # ---- exported constants ---------------------------------------------------------------------------------------
+    check_exports(ctx, ns, sess.targets, model_bounds, bad)
+
+    # ---- regeneration over an existing output tree -------------------------------------------------------------------
+    regeneration_stream(ctx, tally, drv)
+
     # ---- serialization into buffers of every size ------------------------------------------------------------------
     rng = ctx.rng
     reqs = E.corpus_requests(sess, "C05")
@@ -214,6 +312,14 @@ def replay(ctx, path):
     import json
     r = json.loads(open(path).read())
     rp = r.get("replay") or {}
+    if "regeneration" in rp or rp.get("origin") == "regeneration":
+        # the failing input is a history (generate, edit a nested type, regenerate in place): run it again
+        tally = E.Tally(ctx)
+        regeneration_stream(ctx, tally, None)
+        for f in ctx.failures:
+            print(json.dumps({"key": f["key"], "what": f["what"]}))
+        ctx.cleanup()
+        return 1 if ctx.failures else 0
     if "item" not in rp:
         return E.replay(ctx, path)
     # an exported constant: rebuild the one target and probe again
